@@ -38,7 +38,6 @@ Proof.
   destruct H as [rl st after err Hp | e freq cx so He Hd Hf Hg Hc Hs Hfin].
   - subst pl. contradiction.
   - unfold finish_sync in Hfin.
-    match type of Hfin with (if ?c then _ else _) = _ => destruct c; [discriminate|] end.
     match type of Hfin with (if ?c then _ else _) = _ => destruct c; [|discriminate] end.
     inversion Hfin; subst pl; clear Hfin. cbn [pl_new_pods pl_creates] in *.
     apply in_flat_map in Hin. destruct Hin as [k [Hk Hin]].
